@@ -480,6 +480,19 @@ func c02Mutations(w *W) {
 // into the tokens the symbol string stands for ('q 'q is one quoted word).
 // Such strings are not judged.
 func lexicallyEntangled(ss []sym) bool {
+	// a comment runs to the end of the line: a later symbol on that line that itself contains a newline
+	// (a multi-line quoted word) ends the comment in its middle
+	inComment := false
+	for _, s := range ss {
+		switch {
+		case s.kind == kNL:
+			inComment = false
+		case s.kind == kComment:
+			inComment = true
+		case inComment && strings.Contains(s.text, "\n"):
+			return true
+		}
+	}
 	for i, s := range ss {
 		if s.kind != kBroken {
 			continue
